@@ -651,7 +651,9 @@ def nodeTyY (F : Facts) (forced : Option Ty) (shift : Bool) (c0 c1 : NS) : Ty :=
 /-- post-order case `binaryExpr` for `<<` and `>>` -/
 def shiftNodeY (F : Facts) (env : Env) (forced : Option Ty) (a : Act) (c0 c1 : NS) : Res NS :=
   (checkShiftY F c0 c1).bind fun (c0', c1') =>
-    let nty : Ty := if !c0'.ty.untyped then c0'.ty else nodeTyY F forced true c0' c1'
+    let nty : Ty := if !c0'.ty.untyped then c0'.ty
+      else if F.eval.chk.shiftUntypedInt then (if c0'.ty.isInt then c0'.ty else .u .int)   -- 287aa9d
+      else nodeTyY F forced true c0' c1'
     (if F.eval.chk.constExprBin then constExprY F a false c0' c1' else .ok ()).bind fun _ =>
     (foldShiftY F a nty c0'.rv c1'.rv).bind fun rv =>
     (if F.eval.chk.overflowBin then constOverflowY F rv else .ok ()).bind fun _ =>
